@@ -92,3 +92,45 @@ def ground_output_type():
 GROUND = [('ground/outputType', 'PageTemplate.outputType is the builtin str (identity on strings)', ground_output_type)]
 BOUNDED = []
 CLASSES = {}
+
+
+# ---------------------------------------------------------------- bounded: whole documents through the real HTML5 renderer
+import render_util as R
+
+LEAVES = ['<b>bold</b>', '\\&amp;', '\\&lt;i\\&gt;', 'a<b', 'x>y', '</p><script>alert(1)</script>', '\\&\\#60;', 'café', '<a href=x>k</a>']
+
+
+def tex_to_text(leaf):
+    return leaf.replace('\\&', '&').replace('\\#', '#')
+
+
+def bounded_render(budget, rng):
+    import time
+    t0, n = time.time(), 0
+    while time.time() - t0 < min(budget, 60) * 0.7 or n < 3:
+        n += 1
+        leaves = rng.sample(LEAVES, 3)
+        src, words, labs, refs = R.gen_doc(rng, leaves=leaves, depth=1)
+        esc = rng.random() < 0.5
+        pages, raw = R.render(src, split_level=rng.choice([-10, 1, 2]), escape_high=esc)
+        alltext = ''.join(''.join(p.text) for p in pages.values())
+        plain = src
+        for leaf in leaves:
+            plain = plain.replace(leaf, 'plain')
+        pages0, _ = R.render(plain, split_level=-10 if len(pages) == 1 else 2, escape_high=esc)
+        tags0 = sorted(t for p in pages0.values() for t in p.tags)
+        for leaf in leaves:
+            want = tex_to_text(leaf)
+            if src.count(leaf) and want not in alltext:
+                return False, n, 'leaf %r does not appear as text in the output (escape-high-chars=%r)' % (want, esc), dict(src=src)
+        tags1 = sorted(t for p in pages.values() for t in p.tags)
+        if len(pages0) == len(pages) and tags1 != tags0:
+            extra = [t for t in set(tags1) if tags1.count(t) != tags0.count(t)]
+            return False, n, 'document text became markup: element inventory differs from the same document with plain words: %r' % extra, dict(src=src)
+        if esc and any(ord(c) > 127 for data in raw.values() for c in data):
+            return False, n, 'escape-high-chars output is not pure ASCII', dict(src=src)
+    return True, n, ''
+
+
+BOUNDED.append(('bounded/render-escaping', 'adversarial text leaves (tag-like, entity-like, non-ASCII) rendered by the real HTML5 renderer appear as text, introduce no element, and escape-high-chars output is ASCII with the same decoded text',
+                'random sectioned documents (depth 1-2, lists, footnotes) x 3 of 10 adversarial leaves x split level {-10,1,2} x escape-high-chars on/off; budget-limited', bounded_render))
